@@ -351,6 +351,24 @@ Proof. unfold c19_ranges. vm_compute. intuition discriminate. Qed.
 Lemma side_2997 : c19_side cfg_2997 3003.
 Proof. apply whole_ms_side; [exact ranges_2997|reflexivity]. Qed.
 
+(* any prefix of a constant-duration run is a constant-duration run: theorems about every
+   [flags] are theorems about every playlist served along the way *)
+Lemma constWrites_firstn : forall n flags d0 T,
+  firstn n (constWrites d0 T flags) = constWrites d0 T (firstn n flags).
+Proof.
+  induction n as [|n IH]; intros [|[ra pc] flags] d0 T; try reflexivity.
+  cbn [constWrites firstn]. f_equal. apply IH.
+Qed.
+
+(* a concrete run inside the hypotheses of every run theorem, listing non-final parts *)
+Lemma run_example : exists s p,
+  run cfg_2997 init_state (constWrites 0 3003 (flags_gop 3 30)) = POk s /\ In p (nonFinalListed s)
+  /\ clockRate cfg_2997 <= 5000 * Z.gcd 200000 (clockRate cfg_2997).
+Proof.
+  eexists. exists {| p_dur := 200200000; p_n := 6 |}.
+  split; [vm_compute; reflexivity|]. split; [vm_compute; tauto|vm_compute; discriminate].
+Qed.
+
 Definition std_rates : list Z :=
   [90000; 48000; 96000; 88200; 64000; 44100; 32000; 24000; 22050; 16000; 12000; 11025; 8000; 7350].
 
